@@ -411,16 +411,23 @@ pub fn run_property(p: &dyn Property, tier: Tier, seed: u64) -> RunOutcome {
         hs.into_iter()
             .map(|h| match h.join() {
                 Ok(r) => r,
-                Err(_) => (
-                    Stats::default(),
-                    Some((
-                        Value::Null,
-                        Failure {
-                            signature: "harness/thread-panic".into(),
-                            message: format!("worker panicked: {}", crate::observe::last_panic()),
-                        },
-                    )),
-                ),
+                Err(payload) => {
+                    let msg = payload
+                        .downcast_ref::<&str>()
+                        .map(|s| s.to_string())
+                        .or_else(|| payload.downcast_ref::<String>().cloned())
+                        .unwrap_or_else(|| "<non-string payload>".into());
+                    (
+                        Stats::default(),
+                        Some((
+                            Value::Null,
+                            Failure {
+                                signature: "harness/thread-panic".into(),
+                                message: format!("worker panicked: {msg}"),
+                            },
+                        )),
+                    )
+                }
             })
             .collect()
     });
